@@ -61,6 +61,13 @@ Proof.
   - intros _. apply in_or_app. left. apply smem_In. assumption.
   - intro H. apply in_or_app. right. apply IH. assumption.
 Qed.
+Lemma find_wbranch_some n bs b : find_wbranch n bs = Some b -> In b bs /\ smem n (wb_names b) = true.
+Proof.
+  induction bs as [|a r IH]; simpl; [discriminate|].
+  destruct (smem n (wb_names a)) eqn:E.
+  - intro H; inversion H; subst. split; [left; reflexivity | assumption].
+  - intro H. destruct (IH H) as [H1 H2]. split; [right; assumption | assumption].
+Qed.
 Lemma find_shape_in n bs s : find_shape n bs = Some s -> In n (flat_map fst bs).
 Proof.
   induction bs as [|[ns sh] r IH]; simpl; [discriminate|].
@@ -206,6 +213,19 @@ Section Proofs.
 
     Hypothesis tables_ok : iq_tables_ok T I = true.
 
+    Lemma iq_guard_false n b (c : option (list Z)) :
+      iq_name_ok T I n b = true -> (wb_controls b = true -> truthy_list c = true) ->
+      smem n (iq_w_need_control I) && negb (truthy_list c) = false.
+    Proof.
+      unfold iq_name_ok. intros Hok Hc.
+      destruct (lookup n (iq_names I)); [|discriminate].
+      destruct (find_rbranch _ _ _ _); [|discriminate].
+      apply andb_prop in Hok. destruct Hok as [_ HG].
+      destruct (wb_controls b).
+      - rewrite (Hc eq_refl). apply andb_false_r.
+      - simpl in HG. apply negb_true_iff in HG. rewrite HG. reflexivity.
+    Qed.
+
     Lemma iq_gate_roundtrip g :
       gate_valid g -> iq_expressible g ->
       exists r, iq_write_gate g = Ok r /\ exists g', iq_read_rec r = Ok g' /\ came_back g g'.
@@ -217,13 +237,14 @@ Section Proofs.
       assert (Hok : iq_name_ok T I n b = true).
       { unfold iq_tables_ok in tables_ok. rewrite forallb_forall in tables_ok.
         specialize (tables_ok n (find_wbranch_in _ _ _ Hb)). rewrite Hb in tables_ok. assumption. }
+      rewrite (iq_guard_false n b c Hok Hctl).
       unfold iq_name_ok in Hok.
       destruct (lookup n (iq_names I)) as [w|] eqn:Hw; [|discriminate]. simpl.
       eexists. split; [reflexivity|].
       unfold Formats.iq_read_rec. simpl.
       (* presence of the control / rotation keys as seen by the reader *)
       assert (Hc : is_some (if wb_controls b then c else None) = wb_controls b).
-      { destruct (wb_controls b) eqn:E; [|reflexivity]. destruct c; [reflexivity|]. exfalso. apply Hctl; reflexivity. }
+      { destruct (wb_controls b) eqn:E; [|reflexivity]. destruct c; [reflexivity|]. specialize (Hctl eq_refl). discriminate. }
       assert (Hp : is_some (if wb_rotation b then Some p else None) = wb_rotation b).
       { destruct (wb_rotation b); reflexivity. }
       rewrite Hc, Hp.
@@ -231,7 +252,7 @@ Section Proofs.
       destruct (find_rbranch name (wb_controls b) (wb_rotation b) (iq_rbranches I)) as [rb|]; [|discriminate].
       set (final := if rb_prefixC rb then String.append "C" name else name) in *.
       repeat (apply andb_prop in Hok; destruct Hok as [Hok ?]).
-      rename H into HnC, H0 into HfC, H1 into Har, H2 into Hpp, H3 into Hpc.
+      rename H0 into HnC, H1 into HfC, H2 into Har, H3 into Hpp, H4 into Hpc.
       apply eqb_prop in Hpp. apply arity_eqb_eq in Har.
       (* the controls the reader passes to Gate are the gate's own *)
       assert (Hctrl : (if rb_pass_ctrl rb then option_map (map IInt) (if wb_controls b then c else None) else None)
@@ -302,11 +323,31 @@ Section Proofs.
 
     Lemma iq_write_gate_unaccepted (g : pgate) : iq_accepts I (pname g) = false -> iq_write_gate Ang I g = Err ValueError.
     Proof.
-      unfold iq_accepts, Formats.iq_write_gate. destruct (find_wbranch (pname g) (iq_wbranches I)); [discriminate | reflexivity].
+      unfold iq_accepts, Formats.iq_write_gate. destruct (find_wbranch (pname g) (iq_wbranches I)); [discriminate|].
+      destruct (smem (pname g) (iq_w_need_control I) && negb (truthy_list (pcontrol g))); reflexivity.
     Qed.
     Lemma pq_write_gate_unaccepted (g : pgate) : pq_accepts P (pname g) = false -> pq_write_gate Ang P g = Err ValueError.
     Proof.
       unfold pq_accepts, Formats.pq_write_gate. destruct (find_shape (pname g) (pq_wbranches P)); [discriminate | reflexivity].
+    Qed.
+
+    (* every kind written with a controls key is covered by the branch that refuses a missing control *)
+    Definition iq_controls_guarded : bool :=
+      forallb (fun b => negb (wb_controls b) || forallb (fun n => smem n (iq_w_need_control I)) (wb_names b)) (iq_wbranches I).
+
+    Theorem iq_refuses_nocontrol (c : fcirc Ang) (g : pgate) b :
+      iq_controls_guarded = true ->
+      In g (fgates c) -> find_wbranch (pname g) (iq_wbranches I) = Some b -> wb_controls b = true ->
+      truthy_list (pcontrol g) = false -> exists e, iq_write Ang I c = Err e.
+    Proof.
+      intros Hg Hin Hb Hc Ht. unfold Formats.iq_write.
+      destruct (mapM_err_in (iq_write_gate Ang I) (fgates c) g Hin) as [e He].
+      { exists ValueError. unfold Formats.iq_write_gate.
+        destruct (find_wbranch_some _ _ _ Hb) as [Hinb Hn].
+        unfold iq_controls_guarded in Hg. rewrite forallb_forall in Hg. specialize (Hg b Hinb).
+        rewrite Hc in Hg. simpl in Hg. rewrite forallb_forall in Hg.
+        rewrite (Hg (pname g) (proj1 (smem_In _ _) Hn)), Ht. reflexivity. }
+      rewrite He. eexists. reflexivity.
     Qed.
 
     (* a guarded kind with no / several controls is refused by the guard itself *)
@@ -374,7 +415,9 @@ Section Proofs.
       /\ (ir_controls r = None \/ ir_controls r = pcontrol g) /\ ir_control r = None
       /\ (ir_rotation r = None \/ ir_rotation r = Some (pparam g)).
     Proof.
-      unfold Formats.iq_write_gate. destruct (find_wbranch (pname g) (iq_wbranches I)) as [b|]; [|discriminate].
+      unfold Formats.iq_write_gate.
+      destruct (smem (pname g) (iq_w_need_control I) && negb (truthy_list (pcontrol g))); [discriminate|].
+      destruct (find_wbranch (pname g) (iq_wbranches I)) as [b|]; [|discriminate].
       destruct (lookup (pname g) (iq_names I)) as [w|]; simpl; [|discriminate].
       intro H; inversion H; subst; simpl. repeat split; try reflexivity.
       - destruct (wb_controls b); [right | left]; reflexivity.
@@ -458,13 +501,47 @@ Section Proofs.
     (* export then import, for every circuit over the gate kinds that survive ([pq_survives], computed from
        the regenerated tables), numeric parameters, single controls, and no idle qubit above the last used
        one (the reader infers the width from the gates) *)
+    Lemma pq_n_allocated_app a b :
+      pq_n_allocated Ang (a ++ b) = Z.max (pq_n_allocated Ang a) (pq_n_allocated Ang b).
+    Proof.
+      induction a as [|x r IH]; simpl.
+      - assert (H : (0 <= pq_n_allocated Ang b)%Z).
+        { induction b as [|y q IHb]; simpl; lia. }
+        lia.
+      - rewrite IH. lia.
+    Qed.
+    Lemma pq_n_allocated_allocs (n : nat) :
+      pq_n_allocated Ang (map (pq_alloc Ang) (map Z.of_nat (seq 0 n))) = Z.of_nat n.
+    Proof.
+      induction n as [|n IH]; [reflexivity|].
+      rewrite seq_S, !map_app, pq_n_allocated_app, IH.
+      change (pq_n_allocated Ang (map (pq_alloc Ang) (map Z.of_nat [(0 + n)%nat]))) with (Z.max (Z.of_nat n + 1) 0).
+      rewrite Nat2Z.inj_succ. lia.
+    Qed.
+    Lemma pq_n_allocated_none ls :
+      (forall l, In l ls -> pq_alloc_index Ang l = 0%Z) -> pq_n_allocated Ang ls = 0%Z.
+    Proof.
+      induction ls as [|x r IH]; simpl; intro H; [reflexivity|].
+      rewrite (H x (or_introl eq_refl)), IH; [reflexivity|]. intros l Hl. apply H. right. assumption.
+    Qed.
+    (* an instruction that survives the deletion of the (de)allocations is not an Allocate instruction *)
+    Lemma not_ignored_not_alloc l :
+      pq_alloc_ignored = true -> negb (pq_is_ignored l) = true -> pq_alloc_index Ang l = 0%Z.
+    Proof.
+      intros Hal Hl. unfold pq_alloc_index.
+      destruct (ql_param l); [reflexivity|]. destruct (ql_qubits l) as [|q [|q' r]]; try reflexivity.
+      destruct (String.eqb_spec (ql_name l) "Allocate") as [E|E]; [|reflexivity].
+      exfalso. unfold Formats.pq_is_ignored in Hl. rewrite E in Hl.
+      change (negb pq_alloc_ignored = true) in Hl. rewrite Hal in Hl. discriminate.
+    Qed.
+
     Theorem projectq_roundtrip_partial_gen (c : fcirc Ang) :
       pq_alloc_ignored = true ->
-      circ_ok c -> fwidth c = gates_width (fgates c) ->
+      circ_ok c -> (pq_restores_width P = false -> fwidth c = gates_width (fgates c)) ->
       Forall (fun g : pgate => pq_survives T P (pname g) = true) (fgates c) -> Forall pq_expressible (fgates c) ->
       exists ls c', pq_write c = Ok ls /\ pq_read ls = Ok c' /\ circ_eq (clear_var_c c) c' = true.
     Proof.
-      intros Hal [Hv _] Hw Hs Hx. destruct c as [gs w]; simpl in *.
+      intros Hal [Hv Hge] Hw Hs Hx. destruct c as [gs w]; simpl in *.
       destruct (pq_list_roundtrip gs Hs Hv Hx) as (ls & Hws & His & gs' & Hrs & Hb).
       destruct (came_back_list _ _ Hb) as [He Hgw].
       unfold Formats.pq_write; simpl. rewrite Hws; simpl.
@@ -474,12 +551,17 @@ Section Proofs.
       2:{ intros x Hx'. apply in_map_iff in Hx'. destruct Hx' as (q & <- & _).
           change (negb pq_alloc_ignored = false). rewrite Hal. reflexivity. }
       rewrite (filter_all_true _ ls His). simpl. rewrite Hrs. simpl. split; [reflexivity|].
-      unfold Formats.circ_eq, Formats.clear_var_c; simpl. rewrite He, Hgw, Hw. simpl. apply Z.eqb_refl.
+      unfold Formats.circ_eq, Formats.clear_var_c; simpl. rewrite He, Hgw. simpl. apply Z.eqb_eq.
+      destruct (pq_restores_width P) eqn:Er; [|apply Hw; reflexivity].
+      rewrite pq_n_allocated_app. unfold zrange. rewrite pq_n_allocated_allocs.
+      rewrite (pq_n_allocated_none ls).
+      2:{ intros l Hl. apply not_ignored_not_alloc; [assumption | apply His; assumption]. }
+      pose proof (zmax_ge_m1 (flat_map gate_qubits gs)) as Hm. unfold Formats.gates_width in *. lia.
     Qed.
 
     Theorem projectq_roundtrip_partial (c : fcirc Ang) :
       pq_alloc_ignored = true ->
-      circ_ok c -> fwidth c = gates_width (fgates c) ->
+      circ_ok c -> (pq_restores_width P = false -> fwidth c = gates_width (fgates c)) ->
       Forall (fun g : pgate => pq_survives T P (pname g) = true) (fgates c) -> Forall pq_expressible (fgates c) ->
       Forall (fun g : pgate => pvar g = false) (fgates c) ->
       exists ls c', pq_write c = Ok ls /\ pq_read ls = Ok c' /\ circ_eq c c' = true.
@@ -503,7 +585,7 @@ Section Proofs.
     (* the full statement (every kind the writer accepts): holds as soon as the table condition does *)
     Theorem projectq_roundtrip (c : fcirc Ang) :
       pq_tables_ok T P = true -> pq_alloc_ignored = true ->
-      circ_ok c -> fwidth c = gates_width (fgates c) -> Forall pq_expressible (fgates c) ->
+      circ_ok c -> (pq_restores_width P = false -> fwidth c = gates_width (fgates c)) -> Forall pq_expressible (fgates c) ->
       Forall (fun g : pgate => pvar g = false) (fgates c) ->
       exists ls c', pq_write c = Ok ls /\ pq_read ls = Ok c' /\ circ_eq c c' = true.
     Proof.
@@ -515,15 +597,20 @@ Section Proofs.
   End ProjectQ.
 
   (* ================================================================ repr *)
-  Theorem repr_fields_roundtrip (g : pgate) :
-    gate_valid g -> ptarget g <> [] -> pcontrol g <> Some [] ->
-    repr_eval Ang T (gate_repr Ang g) = Ok g /\ gate_eq g g = true.
+  (* with the "is not None" condition every valid gate comes back; with the "truthy" condition the gates
+     with an empty target or control list have to be excluded *)
+  Theorem repr_fields_roundtrip (RP : repr_tables) (g : pgate) :
+    gate_valid g -> (rp_when_not_none RP = false -> ptarget g <> [] /\ pcontrol g <> Some []) ->
+    repr_eval Ang T (gate_repr Ang RP g) = Ok g /\ gate_eq g g = true.
   Proof.
-    intros Hv Ht Hc. split.
+    intros Hv Hne. split.
     - destruct g as [n t c p v]. unfold Formats.gate_valid, regate in Hv. simpl in *.
       unfold repr_eval, gate_repr; simpl.
-      destruct t as [|q t']; [contradiction|].
-      destruct c as [[|x r]|]; [exfalso; apply Hc; reflexivity| |]; destruct p; destruct v; simpl; exact Hv.
+      destruct (rp_when_not_none RP) eqn:E; simpl.
+      + destruct c as [cl|]; destruct p; destruct v; simpl; exact Hv.
+      + destruct (Hne eq_refl) as [Ht Hc].
+        destruct t as [|q t']; [contradiction|].
+        destruct c as [[|x r]|]; [exfalso; apply Hc; reflexivity| |]; destruct p; destruct v; simpl; exact Hv.
     - unfold GateModel.gate_eq. rewrite zlist_eqb_refl, ozlist_eqb_refl, param_eq_refl, eqb_reflx, String.eqb_refl.
       destruct (is_cnot (pname g) && is_cnot (pname g)); reflexivity.
   Qed.
